@@ -32,8 +32,23 @@ theorem step_ok (mx : Nat) (a : Arr) (L : Log) (vs : List Elt) (op : Op) (h : Re
   have hs := h.size
   cases op with
   | pushBack r => exact pushBack_ok L r h hl hr
-  | pushBackMove v => exact pushBack_ok (mx := mx) L (.ext v) h rfl rfl
-  | emplaceBack v => exact pushBack_ok (mx := mx) L (.ext v) h rfl rfl
+  | pushBackMove r =>
+    cases r with
+    | ext v =>
+      show StepOK a L (pushBackMove mx a L (.ext v)) (vs ++ [v]) ∨ Unchanged a L (pushBackMove mx a L (.ext v))
+      rw [pushBackMove_ext]
+      exact pushBack_ok (mx := mx) L (.ext v) h rfl rfl
+    | slot i =>
+      left
+      have hi : i < vs.length := by simpa [legal, hs] using hl
+      have hroom : a.cap ≠ a.size := by simpa [refOK] using hr
+      exact pushBackMove_slot_ok L i h hi hroom
+  | emplaceBack r =>
+    cases r with
+    | ext v => exact pushBack_ok (mx := mx) L (.ext v) h rfl rfl
+    | slot i =>
+      have hi : i < vs.length := by simpa [legal, hs] using hl
+      exact pushBack_ok (mx := mx) L (.slot i) h (by simpa [legal, hs] using hi) (by simpa [refOK] using hr)
   | pushBackDefault => exact pushBack_ok (mx := mx) L (.ext defaultVal) h rfl rfl
   | popBack =>
     left
@@ -47,9 +62,14 @@ theorem step_ok (mx : Nat) (a : Arr) (L : Log) (vs : List Elt) (op : Op) (h : Re
     | slot i =>
       have hp : p ≤ vs.length ∧ i < vs.length := by simpa [legal, hs] using hl
       exact insert_ok L (.slot i) h hp.1 (by intro k hk; cases hk; exact hp.2) hr
-  | emplace p v =>
-    have hp : p ≤ vs.length := by simpa [legal, hs] using hl
-    exact insert_ok L (.ext v) h hp (by intro i hi; cases hi) rfl
+  | emplace p r =>
+    cases r with
+    | ext v =>
+      have hp : p ≤ vs.length := by simpa [legal, hs] using hl
+      exact insert_ok L (.ext v) h hp (by intro i hi; cases hi) rfl
+    | slot i =>
+      have hp : p ≤ vs.length ∧ i < vs.length := by simpa [legal, hs] using hl
+      exact insert_ok L (.slot i) h hp.1 (by intro k hk; cases hk; exact hp.2) (by simpa [refOK] using hr)
   | insertN p n r =>
     cases r with
     | ext v =>
@@ -496,8 +516,12 @@ theorem insertN_resize_alias_break_discipline :
 
 /-! ### the proposed repair needs no aliasing hypothesis -/
 
-theorem refOK_of_copySlot_none (a : Arr) (op : Op) (h : copySlot a op = none) : refOK a op = true := by
+theorem refOK_of_copySlot_none (a : Arr) (op : Op) (h : copySlot a op = none) (hu : unguardedOK a op = true) :
+    refOK a op = true := by
   cases op with
+  | pushBackMove r => exact hu
+  | emplaceBack r => exact hu
+  | emplace p r => exact hu
   | pushBack r => cases r with
     | ext v => rfl
     | slot i =>
@@ -521,11 +545,13 @@ theorem refOK_of_copySlot_none (a : Arr) (op : Op) (h : copySlot a op = none) : 
       · simp [refOK]; omega
   | _ => rfl
 
-/-- **fixed_step_disciplined.** With the repair (`stepFixed`: take a private copy of an element
-argument before reallocating/shifting) every *legal* operation — aliased or not — is disciplined
-and refines `std::vector`; the hypothesis `refOK` is no longer needed. -/
+/-- **fixed_step_disciplined.** With the repair of commit 06f34988 (`stepFixed`: `push_back(const T&)`,
+`insert(p,v)`, `insert(p,n,v)`, `resize(n,v)` take a private copy of an element argument before
+reallocating/shifting) these four operations need no aliasing hypothesis any more.  The three
+operations the commit did NOT guard — `push_back(T&&)`, `emplace_back`, `emplace` — still need it
+(`unguardedOK`; see `emplace_alias_still_breaks_current_code`). -/
 theorem fixed_step_disciplined (mx : Nat) (a : Arr) (L : Log) (vs : List Elt) (op : Op) (h : Rep a vs)
-    (hl : legal mx a op = true) :
+    (hl : legal mx a op = true) (hu : unguardedOK a op = true) :
     (stepFixed mx a L op).log.viol = L.viol ∧
     ((stepFixed mx a L op).thrown = false → Rep (stepFixed mx a L op).arr (spec vs op)) ∧
     ((stepFixed mx a L op).thrown = true → (stepFixed mx a L op).arr = a) ∧
@@ -536,7 +562,7 @@ theorem fixed_step_disciplined (mx : Nat) (a : Arr) (L : Log) (vs : List Elt) (o
   | none =>
     have e : stepFixed mx a L op = step mx a L op := by unfold stepFixed; rw [hcs]
     rw [e]
-    rcases step_ok mx a L vs op h hl (refOK_of_copySlot_none a op hcs) with hk | hk
+    rcases step_ok mx a L vs op h hl (refOK_of_copySlot_none a op hcs hu) with hk | hk
     · exact ⟨hk.viol, fun _ => hk.rep, fun ht => (by rw [hk.nothrow] at ht; cases ht), hk.bal⟩
     · rw [hk.1, hk.2.1]; exact ⟨rfl, fun ht => (by rw [hk.2.2] at ht; cases ht), fun _ => rfl, by omega⟩
   | some i =>
@@ -603,10 +629,12 @@ theorem fixed_step_disciplined (mx : Nat) (a : Arr) (L : Log) (vs : List Elt) (o
 /-- legality along a run of the repaired algorithm (no condition on the value arguments) -/
 def okRunFixed (mx : Nat) (a : Arr) (L : Log) : List Op → Prop
   | [] => True
-  | op :: ops => legal mx a op = true ∧ okRunFixed mx (stepFixed mx a L op).arr (stepFixed mx a L op).log ops
+  | op :: ops => legal mx a op = true ∧ unguardedOK a op = true ∧
+      okRunFixed mx (stepFixed mx a L op).arr (stepFixed mx a L op).log ops
 
-/-- **run_fixed_disciplined.** The repaired `Array_` over arbitrary *legal* operation sequences —
-element arguments allowed everywhere: no violation, well-formedness, live objects = size. -/
+/-- **run_fixed_disciplined.** The code after 06f34988 over arbitrary *legal* operation sequences —
+element arguments allowed for every `const T&` operation (only the three unguarded rvalue/emplace
+operations keep the condition): no violation, well-formedness, live objects = size. -/
 theorem run_fixed_disciplined (mx : Nat) : ∀ (ops : List Op) (a : Arr) (L : Log), WF a → okRunFixed mx a L ops →
     (runFixed mx a L ops).2.viol = L.viol ∧ WF (runFixed mx a L ops).1 ∧
     (runFixed mx a L ops).2.ctor + a.size + L.dtor = (runFixed mx a L ops).2.dtor + (runFixed mx a L ops).1.size + L.ctor := by
@@ -615,9 +643,9 @@ theorem run_fixed_disciplined (mx : Nat) : ∀ (ops : List Op) (a : Arr) (L : Lo
   | nil => intro a L hwf _; exact ⟨rfl, hwf, by simp [runFixed]; omega⟩
   | cons op ops ih =>
     intro a L hwf hok
-    obtain ⟨hl, hrest⟩ := hok
+    obtain ⟨hl, hu, hrest⟩ := hok
     obtain ⟨vs, hv⟩ := hwf
-    obtain ⟨s1, s2, s3, s4⟩ := fixed_step_disciplined mx a L vs op hv hl
+    obtain ⟨s1, s2, s3, s4⟩ := fixed_step_disciplined mx a L vs op hv hl hu
     have hwf' : WF (stepFixed mx a L op).arr := by
       cases ht : (stepFixed mx a L op).thrown with
       | false => exact ⟨_, s2 ht⟩
@@ -766,5 +794,286 @@ theorem reference_ptr_shallow (dst src src' : Ptr) :
 
 /-- non-vacuity of `Heap.Owns`: a heap built by `Cow.make` -/
 example : (Cow.make {} 5).1.Owns 0 5 1 := ⟨rfl, rfl, rfl, by decide⟩
+
+end C26
+
+namespace C26
+
+/-! ## round 2: rvalue / emplace arguments that are elements of the array
+
+`push_back(T&&)`, `emplace_back(args…)`, `emplace(p, args…)` were not touched by 06f34988: they still
+grow / shift first and read their argument afterwards. -/
+
+/-- **the defect is still in the current code** (`stepFixed` = /repo after 06f34988):
+`a.emplace_back(a[0])` and `a.push_back(std::move(a[1]))` at full capacity read a freed element;
+`a.emplace(a.begin()+1, a[2])` at full capacity likewise; with spare capacity
+`a.emplace(a.begin(), a[2])` inserts the wrong element (20 instead of 30) without any violation. -/
+theorem emplace_alias_still_breaks_current_code :
+    (stepFixed 1000 full4 {} (.emplaceBack (.slot 0))).log.viol = 1 ∧
+    (stepFixed 1000 full4 {} (.pushBackMove (.slot 1))).log.viol = 1 ∧
+    (stepFixed 1000 full4 {} (.emplace 1 (.slot 2))).log.viol = 1 ∧
+    (stepFixed 1000 roomy4 {} (.emplace 0 (.slot 2))).log.viol = 0 ∧
+    abs (stepFixed 1000 roomy4 {} (.emplace 0 (.slot 2))).arr = [20, 10, 20, 30, 40] ∧
+    spec [10, 20, 30, 40] (.emplace 0 (.slot 2)) = [30, 10, 20, 30, 40] := by
+  decide
+
+/-- where it is fine: `a.push_back(std::move(a[1]))` with spare capacity leaves `a[1]` moved-from, as std::vector -/
+example : abs (stepFixed 1000 roomy4 {} (.pushBackMove (.slot 1))).arr = [10, movedVal, 30, 40, 20] ∧
+    (stepFixed 1000 roomy4 {} (.pushBackMove (.slot 1))).log.viol = 0 := by decide
+
+/-- the conclusion of `fixed2_step_disciplined`, named so that it can be used for intermediate steps -/
+def Fixed2OK (mx : Nat) (a : Arr) (L : Log) (vs : List Elt) (op : Op) : Prop :=
+    (stepFixed2 mx a L op).log.viol = L.viol ∧
+    ((stepFixed2 mx a L op).thrown = false → Rep (stepFixed2 mx a L op).arr (spec vs op)) ∧
+    ((stepFixed2 mx a L op).thrown = true → (stepFixed2 mx a L op).arr = a) ∧
+    (stepFixed2 mx a L op).log.ctor + a.size + L.dtor
+      = (stepFixed2 mx a L op).log.dtor + (stepFixed2 mx a L op).arr.size + L.ctor
+
+/-- **fixed2_step_disciplined.**  With the second proposed repair (`stepFixed2`) *every* legal
+operation — whatever element of the array is passed by `const T&`, `T&&` or as emplace argument —
+is disciplined and refines `std::vector`; no aliasing hypothesis at all. -/
+theorem fixed2_step_disciplined (mx : Nat) (a : Arr) (L : Log) (vs : List Elt) (op : Op) (h : Rep a vs)
+    (hl : legal mx a op = true) :
+    (stepFixed2 mx a L op).log.viol = L.viol ∧
+    ((stepFixed2 mx a L op).thrown = false → Rep (stepFixed2 mx a L op).arr (spec vs op)) ∧
+    ((stepFixed2 mx a L op).thrown = true → (stepFixed2 mx a L op).arr = a) ∧
+    (stepFixed2 mx a L op).log.ctor + a.size + L.dtor
+      = (stepFixed2 mx a L op).log.dtor + (stepFixed2 mx a L op).arr.size + L.ctor := by
+  have hs := h.size
+  show Fixed2OK mx a L vs op
+  -- operations that `stepFixed2` hands to `stepFixed`
+  have viaFixed : stepFixed2 mx a L op = stepFixed mx a L op → unguardedOK a op = true → Fixed2OK mx a L vs op := fun e hu => by
+    unfold Fixed2OK
+    rw [e]; exact fixed_step_disciplined mx a L vs op h hl hu
+  -- a temporary copy of element `i`, then the operation with that external value
+  have viaCopy : ∀ (i : Nat) (op' : Op), i < vs.length →
+      stepFixed2 mx a L op =
+        { step mx a { L with ctor := L.ctor + 1 } op' with
+          log := { (step mx a { L with ctor := L.ctor + 1 } op').log with
+            dtor := (step mx a { L with ctor := L.ctor + 1 } op').log.dtor + 1 } } →
+      legal mx a op' = true → refOK a op' = true → spec vs op' = spec vs op → Fixed2OK mx a L vs op := by
+    intro i op' hi e hl' hr' hspec
+    unfold Fixed2OK
+    rw [e, ← hspec]
+    rcases step_ok mx a { L with ctor := L.ctor + 1 } vs op' h hl' hr' with hk | hk
+    · exact ⟨hk.viol, fun _ => hk.rep, fun ht => (by have := hk.nothrow; simp only [] at ht; rw [this] at ht; cases ht),
+        by have := hk.bal; simp only [] at this ⊢; omega⟩
+    · refine ⟨by simp only []; rw [hk.2.1], fun ht => (by have := hk.2.2; simp only [] at ht; rw [this] at ht; cases ht),
+        fun _ => hk.1, ?_⟩
+      simp only []; rw [hk.1, hk.2.1]; simp only []; omega
+  cases op with
+  | pushBackMove r =>
+    cases r with
+    | ext v => exact viaFixed rfl rfl
+    | slot i =>
+      have hi : i < vs.length := by simpa [legal, hs] using hl
+      unfold Fixed2OK
+      by_cases hfull : a.cap = a.size
+      · have e : stepFixed2 mx a L (.pushBackMove (.slot i)) =
+            match growAtEnd mx a L 1 with
+            | none => ⟨a, L, true⟩
+            | some (a', L') => pushBackMove mx a' L' (.slot i) := by
+          show (if a.cap = a.size then _ else _) = _
+          rw [if_pos hfull]
+          cases growAtEnd mx a L 1 with
+          | none => rfl
+          | some t => rfl
+        rw [e]
+        unfold growAtEnd
+        cases hc : calcNewCapacityForGrowthBy mx a.cap 1 with
+        | none =>
+          show (⟨a, L, true⟩ : Res).log.viol = L.viol ∧ _
+          exact ⟨rfl, fun ht => (by cases ht), fun _ => rfl, by show L.ctor + a.size + L.dtor = L.dtor + a.size + L.ctor; omega⟩
+        | some nc =>
+          have hge := calcNew_ge hc
+          have hle := h.le
+          obtain ⟨m1, m2, m3⟩ := moveAll_spec L nc h (by unfold Arr.cap at hge; omega)
+          dsimp only
+          generalize moveRange (allocN nc) a.cells L 0 0 a.size = mr at m1 m2 m3 ⊢
+          obtain ⟨nw, old, L'⟩ := mr
+          dsimp only at m1 m2 m3 ⊢
+          subst m3
+          have hroom : (⟨nw, a.size⟩ : Arr).cap ≠ (⟨nw, a.size⟩ : Arr).size := by
+            show nw.length ≠ a.size
+            rw [m2]; unfold Arr.cap at hge hfull; omega
+          have hk := pushBackMove_slot_ok (mx := mx) (L.adv vs.length vs.length) i m1 hi hroom
+          refine ⟨by rw [hk.viol]; rfl, fun _ => hk.rep, fun ht => (by rw [hk.nothrow] at ht; cases ht), ?_⟩
+          have hb := hk.bal
+          dsimp only at hb
+          simp only [Log.adv_ctor, Log.adv_dtor] at hb
+          omega
+      · have e : stepFixed2 mx a L (.pushBackMove (.slot i)) = step mx a L (.pushBackMove (.slot i)) := by
+          simp only [stepFixed2, if_neg hfull]
+        rw [e]
+        rcases step_ok mx a L vs (.pushBackMove (.slot i)) h hl (by simp [refOK, hfull]) with hk | hk
+        · exact ⟨hk.viol, fun _ => hk.rep, fun ht => (by rw [hk.nothrow] at ht; cases ht), hk.bal⟩
+        · rw [hk.1, hk.2.1]; exact ⟨rfl, fun ht => (by rw [hk.2.2] at ht; cases ht), fun _ => rfl, by omega⟩
+  | emplaceBack r =>
+    cases r with
+    | ext v => exact viaFixed rfl rfl
+    | slot i =>
+      have hi : i < vs.length := by simpa [legal, hs] using hl
+      have hv : vs[i]! = vs[i] := by simp [hi]
+      by_cases hfull : a.cap = a.size
+      · refine viaCopy i (.emplaceBack (.ext vs[i]!)) hi ?_ rfl rfl
+          (by simp [spec, Ref.value, List.getD_eq_getElem?_getD, hi])
+        simp only [stepFixed2, if_pos hfull]
+        rw [read_live L (h.live hi), ← hv]
+      · have e : stepFixed2 mx a L (.emplaceBack (.slot i)) = step mx a L (.emplaceBack (.slot i)) := by
+          simp only [stepFixed2, if_neg hfull]
+        unfold Fixed2OK
+        rw [e]
+        rcases step_ok mx a L vs (.emplaceBack (.slot i)) h hl (by simp [refOK, hfull]) with hk | hk
+        · exact ⟨hk.viol, fun _ => hk.rep, fun ht => (by rw [hk.nothrow] at ht; cases ht), hk.bal⟩
+        · rw [hk.1, hk.2.1]; exact ⟨rfl, fun ht => (by rw [hk.2.2] at ht; cases ht), fun _ => rfl, by omega⟩
+  | emplace p r =>
+    cases r with
+    | ext v => exact viaFixed rfl rfl
+    | slot i =>
+      have hp : p ≤ vs.length ∧ i < vs.length := by simpa [legal, hs] using hl
+      have hv : vs[i]! = vs[i] := by simp [hp.2]
+      refine viaCopy i (.emplace p (.ext vs[i]!)) hp.2 ?_ (by simpa [legal, hs] using hp.1) rfl
+        (by simp [spec, Ref.value, List.getD_eq_getElem?_getD, hp.2])
+      simp only [stepFixed2]
+      rw [read_live L (h.live hp.2), ← hv]
+  | pushBack r => exact viaFixed rfl rfl
+  | pushBackDefault => exact viaFixed rfl rfl
+  | popBack => exact viaFixed rfl rfl
+  | insert p r => exact viaFixed rfl rfl
+  | insertN p n r => exact viaFixed rfl rfl
+  | insertRange p ws => exact viaFixed rfl rfl
+  | erase f l => exact viaFixed rfl rfl
+  | eraseOne p => exact viaFixed rfl rfl
+  | eraseFast p => exact viaFixed rfl rfl
+  | clear => exact viaFixed rfl rfl
+  | resize n => exact viaFixed rfl rfl
+  | resizeFill n r => exact viaFixed rfl rfl
+  | reserve n => exact viaFixed rfl rfl
+  | shrinkToFit => exact viaFixed rfl rfl
+  | assignN n v => exact viaFixed rfl rfl
+  | assignRange ws => exact viaFixed rfl rfl
+  | fill r => exact viaFixed rfl rfl
+  | deallocate => exact viaFixed rfl rfl
+  | setElt i v => exact viaFixed rfl rfl
+  | viewFill off len off2 len2 r => exact viaFixed rfl rfl
+  | viewAssign off ws => exact viaFixed rfl rfl
+
+/-- the second repair handles the witnesses like `std::vector` -/
+example : abs (stepFixed2 1000 full4 {} (.emplaceBack (.slot 0))).arr = [10, 20, 30, 40, 10] ∧
+    abs (stepFixed2 1000 full4 {} (.pushBackMove (.slot 1))).arr = [10, movedVal, 30, 40, 20] ∧
+    abs (stepFixed2 1000 roomy4 {} (.emplace 0 (.slot 2))).arr = [30, 10, 20, 30, 40] ∧
+    (stepFixed2 1000 full4 {} (.emplace 1 (.slot 2))).log.viol = 0 := by decide
+
+end C26
+
+namespace C26
+
+/-! ## round 2: the executed (post-06f34988) step over sequences and several arrays -/
+
+/-- contents along a run of the current code (a throwing operation leaves the list unchanged) -/
+def specRunFixed (mx : Nat) (a : Arr) (L : Log) (vs : List Elt) : List Op → List Elt
+  | [] => vs
+  | op :: ops =>
+    specRunFixed mx (stepFixed mx a L op).arr (stepFixed mx a L op).log
+      (if (stepFixed mx a L op).thrown then vs else spec vs op) ops
+
+/-- **run_fixed_refines.** the sequences the driver executes (`stepFixed`) refine the fold of the
+`std::vector` operations -/
+theorem run_fixed_refines (mx : Nat) : ∀ (ops : List Op) (a : Arr) (L : Log) (vs : List Elt), Rep a vs →
+    okRunFixed mx a L ops → abs (runFixed mx a L ops).1 = specRunFixed mx a L vs ops := by
+  intro ops
+  induction ops with
+  | nil => intro a L vs h _; exact abs_of_rep h
+  | cons op ops ih =>
+    intro a L vs h hok
+    obtain ⟨hl, hu, hrest⟩ := hok
+    obtain ⟨_, s2, s3, _⟩ := fixed_step_disciplined mx a L vs op h hl hu
+    show abs (runFixed mx (stepFixed mx a L op).arr (stepFixed mx a L op).log ops).1
+      = specRunFixed mx (stepFixed mx a L op).arr (stepFixed mx a L op).log _ ops
+    cases ht : (stepFixed mx a L op).thrown with
+    | false => exact ih _ _ _ (s2 ht) hrest
+    | true => exact ih _ _ _ (by rw [s3 ht]; exact h) hrest
+
+def wunguardedOK (w : World) : WOp → Bool
+  | .on k op => unguardedOK (w.get k) op
+  | _ => true
+
+/-- outcome of one world operation, for an arbitrary result world `w'` -/
+structure WOutcome (w w' : World) (vss : List (List Elt)) (op : WOp) : Prop where
+  viol : w'.log.viol = w.log.viol
+  rep : ∃ vss', WRep w' vss' ∧ (w'.thrown = false → vss' = wspec vss op) ∧ (w'.thrown = true → vss' = vss)
+  bal : w'.log.ctor + total w + w.log.dtor = w'.log.dtor + total w' + w.log.ctor
+
+/-- **wstepFixed_ok.** the world step the driver executes (`wstepFixed`) is disciplined and refines `wspec` -/
+theorem wstepFixed_ok (mx : Nat) (w : World) (vss : List (List Elt)) (op : WOp) (h : WRep w vss)
+    (hl : wlegal mx w op = true) (hu : wunguardedOK w op = true) : WOutcome w (wstepFixed mx w op) vss op := by
+  have other : wstepFixed mx w op = wstep mx w op → wrefOK w op = true → WOutcome w (wstepFixed mx w op) vss op := by
+    intro e hr
+    rw [e]
+    obtain ⟨a, b, c⟩ := wstep_ok mx w vss op h hl hr
+    exact ⟨a, b, c⟩
+  cases op with
+  | on k op =>
+    obtain ⟨arrs, L, t⟩ := w
+    have hk : k < arrs.length ∧ legal mx (arrs.getD k {}) op = true := by simpa [wlegal, World.get] using hl
+    have hu' : unguardedOK (arrs.getD k {}) op = true := hu
+    have hrep : Rep (arrs.getD k {}) (vss.getD k []) := h.2 k
+    obtain ⟨s1, s2, s3, s4⟩ := fixed_step_disciplined mx (arrs.getD k {}) L (vss.getD k []) op hrep hk.2 hu'
+    have hsum := sum_set arrs k (stepFixed mx (arrs.getD k {}) L op).arr hk.1
+    refine ⟨s1, ?_, ?_⟩
+    · cases ht : (stepFixed mx (arrs.getD k {}) L op).thrown with
+      | false =>
+        exact ⟨vss.set k (spec (vss.getD k []) op), wrep_set k _ _ h (s2 ht), fun _ => rfl,
+          fun ht' => (by have : (stepFixed mx (arrs.getD k {}) L op).thrown = true := ht'; rw [ht] at this; cases this)⟩
+      | true =>
+        refine ⟨vss, ?_, fun ht' => (by have : (stepFixed mx (arrs.getD k {}) L op).thrown = false := ht'; rw [ht] at this; cases this), fun _ => rfl⟩
+        have := wrep_set (L' := (stepFixed mx (arrs.getD k {}) L op).log) (t' := (stepFixed mx (arrs.getD k {}) L op).thrown)
+          k (stepFixed mx (arrs.getD k {}) L op).arr (vss.getD k []) h (by rw [s3 ht]; exact hrep)
+        rw [set_getD_self] at this; exact this
+    · show (stepFixed mx (arrs.getD k {}) L op).log.ctor + (arrs.map Arr.size).sum + L.dtor
+        = (stepFixed mx (arrs.getD k {}) L op).log.dtor + ((arrs.set k (stepFixed mx (arrs.getD k {}) L op).arr).map Arr.size).sum + L.ctor
+      omega
+  | swap i j => exact other rfl rfl
+  | copyAssign i j => exact other rfl rfl
+  | moveAssign i j => exact other rfl rfl
+  | copyCtor i j => exact other rfl rfl
+  | moveCtor i j => exact other rfl rfl
+  | viewCopy i off j off2 len => exact other rfl rfl
+
+def wrunFixed (mx : Nat) (w : World) : List WOp → World
+  | [] => w
+  | op :: ops => wrunFixed mx (wstepFixed mx w op) ops
+
+def okWRunFixed (mx : Nat) (w : World) : List WOp → Prop
+  | [] => True
+  | op :: ops => wlegal mx w op = true ∧ wunguardedOK w op = true ∧ okWRunFixed mx (wstepFixed mx w op) ops
+
+/-- **world_fixed_disciplined.** what the random streams of the driver execute: arbitrary legal
+sequences over several arrays with the current code — no violation, all arrays well formed, live
+elements = sum of sizes. -/
+theorem world_fixed_disciplined (mx : Nat) : ∀ (ops : List WOp) (w : World) (vss : List (List Elt)),
+    WRep w vss → okWRunFixed mx w ops →
+    (wrunFixed mx w ops).log.viol = w.log.viol ∧ (∃ vss', WRep (wrunFixed mx w ops) vss') ∧
+    (wrunFixed mx w ops).log.ctor + total w + w.log.dtor
+      = (wrunFixed mx w ops).log.dtor + total (wrunFixed mx w ops) + w.log.ctor := by
+  intro ops
+  induction ops with
+  | nil => intro w vss h _; exact ⟨rfl, ⟨vss, h⟩, by simp [wrunFixed]; omega⟩
+  | cons op ops ih =>
+    intro w vss h hok
+    obtain ⟨hl, hu, hrest⟩ := hok
+    obtain ⟨s1, ⟨vss', s2, _, _⟩, s3⟩ := wstepFixed_ok mx w vss op h hl hu
+    obtain ⟨i1, i2, i3⟩ := ih (wstepFixed mx w op) vss' s2 hrest
+    refine ⟨by show (wrunFixed mx (wstepFixed mx w op) ops).log.viol = _; rw [i1, s1], i2, ?_⟩
+    show (wrunFixed mx (wstepFixed mx w op) ops).log.ctor + total w + w.log.dtor
+      = (wrunFixed mx (wstepFixed mx w op) ops).log.dtor + total (wrunFixed mx (wstepFixed mx w op) ops) + w.log.ctor
+    omega
+
+/-- each executed world operation is the corresponding operation on a family of `std::vector`s -/
+theorem world_fixed_refines (mx : Nat) (w : World) (vss : List (List Elt)) (op : WOp) (h : WRep w vss)
+    (hl : wlegal mx w op = true) (hu : wunguardedOK w op = true) (hnt : (wstepFixed mx w op).thrown = false) (k : Nat) :
+    abs ((wstepFixed mx w op).get k) = (wspec vss op).getD k [] := by
+  obtain ⟨vss', h1, h2, _⟩ := (wstepFixed_ok mx w vss op h hl hu).rep
+  rw [← h2 hnt]; exact abs_of_rep (h1.2 k)
 
 end C26
